@@ -713,15 +713,20 @@ class MatchKeySignature(MatchParameter):
     def _parse_key_signature(cls, kstr: str) -> MatchKeySignature:
         # import pdb
         # pdb.set_trace()
-        ksinfo = key_signature_pattern.search(kstr)
+        # names of version 1.0.0 ("Gm", "Bb", "C/Am") must not be caught by the
+        # pattern for the older spelling ("G min", "Bb Maj")
+        names = [k.strip()[:1].upper() + k.strip()[1:] for k in kstr.split("/")]
+        if all(re.fullmatch(r"[A-G][#b]*m?", k) for k in names):
+            ksinfo = None
+        else:
+            ksinfo = key_signature_pattern.search(kstr)
 
         if ksinfo is None:
             fmt = "v1.0.0"
-            ksinfo = kstr.split("/")
-            fifths1, mode1 = key_name_to_fifths_mode(ksinfo[0].upper())
+            fifths1, mode1 = key_name_to_fifths_mode(names[0])
             fifths2, mode2 = None, None
-            if len(ksinfo) == 2:
-                fifths2, mode2 = key_name_to_fifths_mode(ksinfo[1].upper())
+            if len(names) == 2:
+                fifths2, mode2 = key_name_to_fifths_mode(names[1])
         else:
             fmt = "v0.3.0"
             step1, alter1, mode1, step2, alter2, mode2 = ksinfo.groups()
